@@ -66,6 +66,23 @@ def key_of(eng, keyref):
     return (as_int(key.f[0]), as_int(key.f[1].f[0].disc), as_int(key.f[1].f[1]))
 
 
+def faulty_write(eng, st, effect, ok_value):
+    """One database write: with a symbolic fault schedule (`db_fault_at` = k) the k-th write of the
+    build fails with MDB_MAP_FULL and has no effect; otherwise `effect(state)` is applied."""
+    st.env["writes"] = st.env.get("writes", 0) + 1
+    k = st.env.get("db_fault_at")
+    if k is None:
+        return one(mk_ok(ok_value(effect(st))))
+    outs = []
+    for s2, fails in fork_on(eng, st, k == BV(st.env["writes"], 32)):
+        if fails:
+            s2.env["injected"] = True
+            outs.append((mk_err(Agg("heed::Error", BV(1, 64), {0: Opaque("MDB_MAP_FULL")})), None, s2))
+        else:
+            outs.append((mk_ok(ok_value(effect(s2))), None, s2))
+    return outs
+
+
 def build_models(opts):
     ms = []
 
@@ -86,32 +103,38 @@ def build_models(opts):
     @reg(r"^heed::Database::<.*>::put::<")
     def _(eng, st, callee, a, ty):
         k = key_of(eng, a[2])
-        n = st.env.get("db_fault_at")
-        st.env["writes"] = st.env.get("writes", 0) + 1
         val = W.snap(eng, a[3])
         if isinstance(val, Ref):
             val = eng.deref(val)
         if isinstance(val, Opaque) and val.tag == "bytes":
             val = val.data["node"]      # raw put of bytes that TmpNodes serialised from a node
-        st.env["kv"][k] = val
-        return one(mk_ok(unit()))
+
+        def effect(s2):
+            s2.env["kv"][k] = val
+        return faulty_write(eng, st, effect, lambda _: unit())
 
     @reg(r"^heed::Database::<.*>::delete::<")
     def _(eng, st, callee, a, ty):
         k = key_of(eng, a[2])
-        existed = k in st.env["kv"]
-        st.env["kv"].pop(k, None)
-        return one(mk_ok(z3.BoolVal(existed)))
+
+        def effect(s2):
+            existed = k in s2.env["kv"]
+            s2.env["kv"].pop(k, None)
+            return existed
+        return faulty_write(eng, st, effect, lambda existed: z3.BoolVal(existed))
 
     @reg(r"^heed::Database::<.*>::delete_range::<")
     def _(eng, st, callee, a, ty):
         r = eng.deref(a[2])
         lo, hi = key_of(eng, Ref(Cell(r.f[0]))), key_of(eng, Ref(Cell(r.f[1])))
         inc = r.kind == "RangeInclusive"
-        dead = [k for k in st.env["kv"] if k >= lo and (k <= hi if inc else k < hi)]
-        for k in dead:
-            del st.env["kv"][k]
-        return one(mk_ok(BV(len(dead), 64)))
+
+        def effect(s2):
+            dead = [k for k in s2.env["kv"] if k >= lo and (k <= hi if inc else k < hi)]
+            for k in dead:
+                del s2.env["kv"][k]
+            return len(dead)
+        return faulty_write(eng, st, effect, lambda n: BV(n, 64))
 
     @reg(r"^std::ops::RangeInclusive::<Key>::new$")
     def _(eng, st, callee, a, ty):
@@ -295,9 +318,11 @@ def build_models(opts):
         v = eng.deref(a[3]) if isinstance(a[3], Ref) else a[3]
         if not (isinstance(v, Opaque) and v.tag == "bytes"):
             raise Unknown("raw put of unexpected bytes")
-        st.env["kv"][k] = v.data["node"]
-        st.env["writes"] = st.env.get("writes", 0) + 1
-        return one(mk_ok(unit()))
+        node = v.data["node"]
+
+        def effect(s2):
+            s2.env["kv"][k] = node
+        return faulty_write(eng, st, effect, lambda _: unit())
 
     @reg(r"^<Vec<\(TmpNodesReader, RoaringBitmap\)> as Deref>::deref$")
     def _(eng, st, callee, a, ty):
@@ -561,7 +586,7 @@ def apply_ops(kv, index, adds, dels):
             kv[(index, UPD, i)] = Agg("unit")
 
 
-def run_history(ctx, rounds, dim, deadline, state_budget=60, cancel=False):
+def run_history(ctx, rounds, dim, deadline, state_budget=60, cancel=False, db_faults=False):
     """rounds: list of dicts(adds=[..], dels=[..], n_trees=, split_after=)"""
     res = {"paths": 0, "violations": [], "unknown": [], "shapes": [], "queries": 0, "solver_s": 0.0, "encoded": set()}
     fn = [f for n, f in ctx.fns.items() if re.search(r"writer::.*::build$", n) and "&Writer<D>" in f.header][0]
@@ -593,6 +618,9 @@ def run_history(ctx, rounds, dim, deadline, state_budget=60, cancel=False):
             if cancel:
                 env["cancel_from"] = z3.BitVec("cancel_from_poll", 32)
                 pc = [z3.UGE(env["cancel_from"], 1)]
+            if db_faults:
+                env["db_fault_at"] = z3.BitVec("db_fault_at_write", 32)
+                pc = pc + [z3.UGE(env["db_fault_at"], 1)]
             writer = Agg("Writer", None, {0: Opaque("Database"), 1: BV(IDX, 16), 2: BV(dim, 64), 3: Agg("Option", BV(0, 64), {})})
             finals = eng.run(fn, [Ref(Cell(writer)), Ref(Cell(Opaque("RwTxn"))), Ref(Cell(Opaque("rng"))),
                                   Ref(Cell(options_value(opts)))], env=env, pc=pc, deadline=deadline, max_paths=40000)
@@ -606,7 +634,8 @@ def run_history(ctx, rounds, dim, deadline, state_budget=60, cancel=False):
 
                 def viol(clause):
                     res["violations"].append({"shape": f"round {rno + 1}", "clause": clause, "pre": None,
-                                              "values": {"rounds": rounds[:rno + 1], "dim": dim, "cancel": cancel}})
+                                              "values": {"rounds": rounds[:rno + 1], "dim": dim, "cancel": cancel,
+                                                         "db_faults": db_faults}})
                 if f.status in ("unknown", "unwind"):
                     res["unknown"].append(f"{label}: {f.status}: {f.info}")
                     continue
@@ -615,9 +644,14 @@ def run_history(ctx, rounds, dim, deadline, state_budget=60, cancel=False):
                     continue
                 rv = f.value
                 if not z3.is_true(z3.simplify(rv.disc == BV(0, 64))):
-                    bad = e2_tree.error_violation(eng, f, rv, cancel)
+                    bad = e2_tree.error_violation(eng, f, rv, cancel or db_faults)
                     if bad:
                         viol("build " + bad)
+                    continue
+                if f.env.get("injected"):
+                    if eng.check(f.pc)[0]:
+                        viol("build returns Ok although a database write failed (MDB_MAP_FULL injected at write "
+                             f"{f.env.get('writes')} or earlier)")
                     continue
                 kv1 = f.env["kv"]
                 for k, v in neighbours.items():
@@ -677,15 +711,16 @@ HISTORIES = {
 }
 
 
-def run_all(ctx, tier, cancel, deadline):
+def run_all(ctx, tier, cancel, deadline, db_faults=False):
     total = None
     hs = HISTORIES["quick"] + (HISTORIES["thorough"] if tier == "thorough" else [])
-    if cancel:
-        # the cancel point multiplies the paths: single-tree histories only (tree builds are independent,
+    if cancel or db_faults:
+        # the cancel / fault point multiplies the paths: single-tree histories only (tree builds are independent,
         # so two trees square the path count)
         hs = [h for h in hs if all((rd.get("n_trees") or 1) == 1 or rd.get("sides") for rd in h[1])]
     for dim, rounds in hs:
-        r = run_history(ctx, rounds, dim, deadline, state_budget=10 if tier == "quick" else 40, cancel=cancel)
+        r = run_history(ctx, rounds, dim, deadline, state_budget=10 if tier == "quick" else 40, cancel=cancel,
+                        db_faults=db_faults)
         if total is None:
             total = r
         else:
@@ -702,6 +737,8 @@ def history_scenario(v):
     """Through-API replay of a history (Euclidean, real LMDB): the same rounds with vectors on a line;
     side decisions are whatever the real metric computes, so several seeds are tried."""
     vals = v["values"]
+    if vals.get("db_faults"):
+        return "mapfull_sweep\n"
     out = []
     cancel = vals.get("cancel")
     variants = [(seed, None) for seed in range(6)] if not cancel else [(0, n) for n in range(1, 120)]
@@ -738,5 +775,6 @@ def obligation(o, tier, seed):
         ctx = e2.context(True)
     except RuntimeError as e:
         return [Outcome(o["id"], "mirsym", "inconclusive", str(e))]
-    total = run_all(ctx, tier, bool(o.get("cancel")), time.time() + (1200 if tier == "quick" else 3300))
+    total = run_all(ctx, tier, bool(o.get("cancel")), time.time() + (1200 if tier == "quick" else 3300),
+                    db_faults=bool(o.get("db_faults")))
     return e2_tree.outcomes_from(o, total, "history", native, e2, Outcome)
